@@ -238,8 +238,20 @@ pub fn panic_message(p: Box<dyn std::any::Any + Send>) -> String {
 
 /// run `f` on a fresh thread (the macro table of Ruschm is thread-local) with a large stack
 pub fn on_fresh_thread<F: FnOnce() -> Vec<String> + Send + 'static>(f: F) -> Vec<String> {
+    on_fresh_thread_sized(256 * 1024 * 1024, f)
+}
+
+/// run `f` on the calling thread (case kinds that never touch interpreter or macro state)
+pub fn in_place<F: FnOnce() -> Vec<String>>(f: F) -> Vec<String> {
+    match catch_unwind(AssertUnwindSafe(f)) {
+        Ok(v) => v,
+        Err(p) => vec![panic_message(p)],
+    }
+}
+
+pub fn on_fresh_thread_sized<F: FnOnce() -> Vec<String> + Send + 'static>(stack: usize, f: F) -> Vec<String> {
     let h = std::thread::Builder::new()
-        .stack_size(256 * 1024 * 1024)
+        .stack_size(stack)
         .spawn(move || match catch_unwind(AssertUnwindSafe(f)) {
             Ok(v) => v,
             Err(p) => vec![panic_message(p)],
@@ -271,7 +283,7 @@ fn run_case(kind: &str, fields: Vec<String>) -> Vec<String> {
             };
             fields[1..].iter().map(|f| eval_form(&mut it, f)).collect()
         }),
-        "lex" => on_fresh_thread(move || {
+        "lex" => in_place(move || {
             let mut out = vec![];
             for t in Lexer::from_char_stream(fields[0].chars()) {
                 match t {
@@ -285,7 +297,7 @@ fn run_case(kind: &str, fields: Vec<String>) -> Vec<String> {
             out
         }),
         // the data of a text, one per top-level datum, read by Parser::current_datum
-        "read" => on_fresh_thread(move || {
+        "read" => in_place(move || {
             let mut out = vec![];
             let mut p = Parser::from_lexer(Lexer::from_char_stream(fields[0].chars()));
             loop {
